@@ -100,6 +100,50 @@ def _resolve_check(name):
              'class': 'c19-name-resolves', 'input': {'expr': name}, 'replay': {'kind': 'name', 'expr': name}}]
 
 
+RECEIVERS = ['x', 'l', 'd', 's', 'n', 'd["k"]', 'l[0]', 'l[1]', 'dict(d)', 'dict()', 'list(l)', 'str(n)', 'len', 'str', 'x.method', 'd.items()', 'd.get',
+             '(1, 2)', '[1]', 'set(l)', 'frozenset()', 'slice(1)', 'x.pub', 'bytes()', 'bytearray()', 'complex(1)', 'float(n)', 'bool(n)', 'iter(l)', 'zip(l)',
+             'map(str, l)', 'enumerate(l)', 'filter(len, [s])', 'sorted(s)', 'od', 'sub', 'd["nested"]']
+PRIVATE = ['_k', '_secret', '__class__', '__dict__', '__doc__', '__len__', '__contains__', '__reduce_ex__', '__init__', '_', '__', '__getitem__',
+           '__iter__', '__self__', '__name__', '__missing__']
+
+
+class _SubDict(dict):
+    pass
+
+
+def _refusal_job(recv):
+    """Whatever the receiver - plain dict, list, str, number, built-in, bound method, view, object - a member whose name starts
+    with an underscore is refused: the evaluation raises, it never yields a value."""
+    from collections import OrderedDict
+    from graphtage import expressions
+    fails = []
+    for m in PRIVATE:
+        for form in (f'{recv}.{m}', f'{recv}.({m})', f'({recv}).{m}', f'{recv}.{m}()', f'{recv}.{m} == {recv}.{m}'):
+            env = _env()
+            env['d']['nested'] = {'_k': 2, 'k': 3}
+            env['od'] = OrderedDict(a=1, _k=2)
+            env['sub'] = _SubDict(a=1, _k=2)
+            try:
+                expressions.parse(recv).eval(locals=env)
+            except Exception:
+                break           # (the receiver itself does not evaluate: nothing to refuse)
+            try:
+                e = expressions.parse(form)
+            except Exception:
+                continue
+            try:
+                v = e.eval(locals=env)
+            except Exception:
+                continue
+            fails.append({'what': f"expression {form!r} evaluated to {str(v)[:80]!r}: a member whose name starts with an underscore was read "
+                                  f"from a {type(expressions.parse(recv).eval(locals=env)).__name__}", 'class': 'c19-private-member-evaluated',
+                          'input': {'expr': form}, 'replay': {'kind': 'refusal', 'recv': recv}})
+            break
+        if fails:
+            break
+    return fails
+
+
 def _history_job(scen):
     """The names an expression can see do not grow with use: after match conditions were evaluated (library classes, the
     command line) or expressions were evaluated with supplied locals, the default globals are still exactly the documented
@@ -174,6 +218,9 @@ def replay(entry, repo_root):
     if r.get('kind') == 'expr':
         f = _eval_inner(r['expr'])
         return f[0]['what'] if f else None
+    if r.get('kind') == 'refusal':
+        f = _refusal_job(r['recv'])
+        return f[0]['what'] if f else None
     if r.get('kind') == 'history':
         f = _history_job(r['scenario'])
         return f[0]['what'] if f else None
@@ -245,12 +292,13 @@ def bounded(tier, seed, repo_root):
              'repr', 'isinstance', 'callable', 'delattr', 'hasattr', 'b', 'from', 'to']
     for n in names:
         fails += _resolve_check(n)
+    fails += [f for fs in pmap(_refusal_job, RECEIVERS, repo_root, chunksize=1, job_timeout=60, on_timeout=None) for f in fs]
     scens = ['matchers', 'cli', 'eval-locals']
     for scen in scens:      # (own pool each: state left behind stays in that worker)
         fails += [f for fs in pmap(_history_job, [scen], repo_root, workers=1) for f in fs]
     return [{
         'name': 'C19.tripwire', 'bound': f"{len(exprs)} expressions: grammar over {len(ATOMS)} atoms x {len(MEMBERS)} member names, calls, "
-        f"indexing, operators to depth {2 if tier == 'quick' else 3} (depth>=2 sampled) + hand-written routes; {len(names)} free names; {len(scens)} usage histories (match conditions through the library classes and the command line, evaluations with supplied locals / globals) after which the default globals and 5 free names are re-checked",
+        f"indexing, operators to depth {2 if tier == 'quick' else 3} (depth>=2 sampled) + hand-written routes; {len(names)} free names; {len(RECEIVERS)} kinds of receiver x {len(PRIVATE)} underscore names x 5 spellings that must be refused; {len(scens)} usage histories (match conditions through the library classes and the command line, evaluations with supplied locals / globals) after which the default globals and 5 free names are re-checked",
         'evaluations': len(exprs) + len(names), 'distinct_nontrivial': len(exprs), 'exhaustive': False,
         'rule': 'expression string -> parse(...).eval(locals=env with tripwired objects): no read of an attribute whose name '
                 'starts with "_"; free names outside supplied/whitelist do not resolve',
